@@ -18,6 +18,7 @@ func init() {
 func runWSDeadline(c *core.Ctx) {
 	P := c.P
 	n := 0
+	timedSomewhere := map[string]bool{}
 	for _, fn := range P.ModFuncs {
 		if P.PkgOf(fn) != core.ModulePath {
 			continue
@@ -40,52 +41,43 @@ func runWSDeadline(c *core.Ctx) {
 				p := an.PathOf(v)
 				return strings.Contains(p, "call:context.WithTimeout(") && strings.Contains(p, ".SendTimeout")
 			}
-			type edge struct {
-				v    ssa.Value
-				pred *ssa.BasicBlock
-			}
-			var edges []edge
-			var phiBlock *ssa.BasicBlock
-			if ph, ok := ctxArg.(*ssa.Phi); ok {
-				phiBlock = ph.Block()
-				for i, e := range ph.Edges {
-					edges = append(edges, edge{e, phiBlock.Preds[i]})
-				}
-			} else {
-				edges = []edge{{ctxArg, nil}}
-			}
 			var problems []string
 			nTimed, nUntimed := 0, 0
-			for _, e := range edges {
-				if timed(e.v) {
+			paths, _ := an.PathsTo(fn, call.Block(), 1024)
+			c.CountPaths(len(paths))
+			for _, p := range paths {
+				if !an.Feasible(p) {
+					continue
+				}
+				// the context that reaches the call along this path
+				v := ctxArg
+				if ph, ok := v.(*ssa.Phi); ok {
+					pred := p.Pred(ph.Block())
+					for i, pb := range ph.Block().Preds {
+						if pb == pred {
+							v = ph.Edges[i]
+						}
+					}
+				}
+				if timed(v) {
 					nTimed++
 					continue
 				}
 				nUntimed++
-				if e.pred == nil {
-					problems = append(problems, "the call never gets a deadline (context "+an.PathOf(e.v)+")")
-					continue
+				onlySend := false
+				for _, cd := range p.Conds() {
+					cp := an.PathOf(cd.V)
+					if strings.Contains(cp, ".SendTimeout") {
+						onlySend = true
+					}
+					for _, other := range []string{"PingDuration", "RecvRateLimit", "MaxMessageLength", "Logger"} {
+						if strings.Contains(cp, "."+other) {
+							problems = append(problems, fmt.Sprintf("the un-timed path is selected by %s, not by SendTimeout", cp))
+						}
+					}
 				}
-				// conditions under which the un-timed edge pred→phiBlock is taken
-				paths, _ := an.PathsTo(fn, e.pred, 1024)
-				c.CountPaths(len(paths))
-				for _, p := range paths {
-					q := append(append(an.Path(nil), p...), phiBlock)
-					onlySend := false
-					for _, cd := range q.Conds() {
-						cp := an.PathOf(cd.V)
-						if strings.Contains(cp, ".SendTimeout") {
-							onlySend = true
-						}
-						for _, other := range []string{"PingDuration", "RecvRateLimit", "MaxMessageLength", "Logger"} {
-							if strings.Contains(cp, "."+other) {
-								problems = append(problems, fmt.Sprintf("the un-timed path is selected by %s, not by SendTimeout", cp))
-							}
-						}
-					}
-					if !onlySend {
-						problems = append(problems, "an un-timed path is taken without any test of SendTimeout")
-					}
+				if !onlySend {
+					problems = append(problems, "an un-timed path is taken without any test of SendTimeout")
 				}
 			}
 			uniq := map[string]bool{}
@@ -96,12 +88,18 @@ func runWSDeadline(c *core.Ctx) {
 					ps = append(ps, p)
 				}
 			}
-			c.Check(len(ps) == 0 && nTimed > 0, nil, fname(c, fn), construct, P.Pos(call.Pos()),
-				fmt.Sprintf("%d timed edge(s) from WithTimeout(_, opt.SendTimeout); %d un-timed edge(s) controlled by SendTimeout only", nTimed, nUntimed),
+			timedSomewhere[fname(c, fn)+short] = timedSomewhere[fname(c, fn)+short] || nTimed > 0
+			c.Check(len(ps) == 0, nil, fname(c, fn), construct, P.Pos(call.Pos()),
+				fmt.Sprintf("%d timed path(s) from WithTimeout(_, opt.SendTimeout); %d un-timed path(s) controlled by SendTimeout only", nTimed, nUntimed),
 				"with some option combination (e.g. PingDuration: 0, SendTimeout: 1s) a write to a peer that stopped reading blocks without deadline: "+strings.Join(ps, "; "))
 		}
 	}
 	if n == 0 {
 		c.NoAnchor(nil, "calls of (*websocket.Conn).Write/Ping")
+	}
+	for k, ok := range timedSomewhere {
+		if !ok {
+			c.Bad(nil, k, "deadline-exists", "-", "no path gives this WebSocket operation a SendTimeout deadline at all")
+		}
 	}
 }
